@@ -294,12 +294,15 @@ theorem refTraces_noFloatingUse :
     (Gen.cRefTraces.all fun m => m.role != .plain || m.paths.all (pathNoFloat (localsOf m.backend) m)) = true := by
   decide +kernel
 
-/-- every C array of node pointers that a path allocates is freed on that path, except in the
-functions listed in `knownArrayLeaks` (DD/CWrapReviewed.lean: `BDD._multi_compose` raises
-`ValueError` out of the loop that fills the array; memory only, no node reference is involved) -/
+/-- every C array of node pointers that a path allocates is freed on that path, except on the
+paths listed in `knownArrayLeaks` by function and exception (DD/CWrapReviewed.lean:
+`BDD._multi_compose` raises `ValueError` out of the loop that fills the array; memory only, no
+node reference is involved) -/
 theorem refTraces_arraysFreed :
-    (Gen.cRefTraces.all fun m => m.role != .plain || knownArrayLeaks.contains (m.backend, m.name) ||
-      m.paths.all (pathArraysFreed (localsOf m.backend) m)) = true := by decide +kernel
+    (Gen.cRefTraces.all fun m => m.role != .plain || m.paths.all fun p =>
+      pathArraysFreed (localsOf m.backend) m p ||
+      knownArrayLeaks.any fun k => k.1 == m.backend && k.2.1 == m.name && endsInRaiseOf k.2.2 p.events) = true := by
+  decide +kernel
 
 /-- the paths that are skipped because they assume `x.ref <= 0` for a node on which a reference
 is held, and that would otherwise end holding a reference, all belong to the three functions of
